@@ -4,7 +4,7 @@
 From Coq Require Import ZArith List String Ascii Bool Lia.
 From Model Require Import PyBase Mdl Mrv Stereo.
 From Gen Require Import MdlTables.
-From Proofs Require Import MdlProofs MdlV2000 MdlV3000 MdlTail MdlFraming MdlFramingExt MdlMeta MdlFile MdlFileMol MdlFileMol3 MdlRxn MdlFileRxn MrvProofs StereoProofs.
+From Proofs Require Import MdlProofs MdlV2000 MdlV3000 MdlTail MdlFraming MdlFramingExt MdlMeta MdlFile MdlFileMol MdlFileMol3 MdlRxn MdlFileRxn MdlFileRxn3 MrvProofs StereoProofs.
 Import ListNotations.
 Open Scope Z_scope.
 Local Notation length := List.length.
@@ -356,6 +356,28 @@ Theorem C11_rdf_rxn_file_roundtrip : forall (A : Type) (build : parsed3 -> pyres
     collect A (map (fun x => match build_rxn (rxn_expected2 mapping x) with Ok o => inl (o, meta_spec (ri_entries x)) | Err e => inr (Py e) end) recs).
 Proof. exact rdf_v2000_rxn_file_roundtrip. Qed.
 Print Assumptions C11_rdf_rxn_file_roundtrip.
+
+(* the same for V3000 reaction records: ERDFWrite then RDFRead (no limits on the number of molecules) *)
+Theorem C11_erdf_rxn_file_roundtrip : forall (A : Type) (build : parsed3 -> pyres A) (build_rxn : rparsed -> pyres A) buffer_size mapping header (recs : list rxn_in),
+  Forall (fun l => ~ In nl l /\ is_fmt l = false /\ startswith (L "$RXN") l = false) header ->
+  Forall (erdf_rxn_wf buffer_size (length header) mapping) recs ->
+  exists texts, mapM (fun x => erdf_rxn_text mapping (ri_rxn x) (meta_of (ri_entries x))) recs = Ok texts /\
+    rdf_read A build build_rxn buffer_size (readlines (text_of_lines header ++ concat texts)) =
+    collect A (map (fun x => match build_rxn (rxn_expected3 mapping x) with Ok o => inl (o, meta_spec (ri_entries x)) | Err e => inr (Py e) end) recs).
+Proof. exact erdf_v3000_rxn_file_roundtrip. Qed.
+Print Assumptions C11_erdf_rxn_file_roundtrip.
+(* non-vacuity of the two reaction file theorems: hypotheses hold for a reaction with 2 reactants, 1 product and a reagent named
+   "$MOL" resp. "M  V30 BEGIN CTAB", with a two-line metadata value; the files read back *)
+Theorem C11_rxn_file_examples :
+  (rdf_rxn_wf 200 2 true ex_rxn_in2 /\ erdf_rxn_wf 200 2 true ex_rxn_in3) /\
+  (exists texts, mapM (fun x => rdf_rxn_text true (ri_rxn x) (meta_of (ri_entries x))) [ex_rxn_in2] = Ok texts /\
+     rdf_read (option str) ex_build ex_build_rxn 200 (readlines (text_of_lines ex_rxn_header ++ concat texts)) =
+     ([(Some (L "test rxn"), [(L "k", L "v" ++ [nl] ++ L "w")])], Exhausted)) /\
+  (exists texts, mapM (fun x => erdf_rxn_text true (ri_rxn x) (meta_of (ri_entries x))) [ex_rxn_in3] = Ok texts /\
+     rdf_read (option str) ex_build ex_build_rxn 200 (readlines (text_of_lines ex_rxn_header ++ concat texts)) =
+     ([(Some (L "test rxn"), [(L "k", L "v" ++ [nl] ++ L "w")])], Exhausted)).
+Proof. exact (conj ex_rxn_files_wf rxn_file_examples). Qed.
+Print Assumptions C11_rxn_file_examples.
 
 (* non-vacuity: the hypotheses hold for a two-record file (charge +4, isotope, radical, wedge, order-8 bond, renumbered atoms;
    an escaped key, a two-line value), and the file reads back *)
